@@ -136,6 +136,7 @@ class Run:
         self.ob_counts = {}
         self.feas_time = 0.0
         self.guards = []  # temporary guards while evaluating guarded sub-expressions
+        self.safety_known = {}  # safety obligation name -> known-finding id (sidecar SAFETY_KNOWN)
 
     # -- symbols
     def fresh(self, sort, hint="v"):
@@ -254,6 +255,13 @@ class Run:
                 status, model, reason = "discharged", None, f"holds outside witness class of known finding {finding}"
             elif status == "refuted":
                 status, model, reason = st2, model2, (reason2 or "") + f" (outside known finding {finding})"
+        if status != "discharged" and ob.kind == "safety" and ob.name in self.safety_known:
+            fid = self.safety_known[ob.name]
+            if all(f in self.known_findings for f in fid.split("+")):
+                ob.finding = fid
+                ob.excluded = True
+                ob.model = self._model_json(model) if model is not None else None
+                status, model, reason = "discharged", None, f"run-time failure that IS known finding {fid} (whole site attributed)"
         ob.status = status
         ob.reason = reason or ""
         ob.time_s = time.time() - t0
